@@ -159,6 +159,93 @@ counters:
     reset_events:
       rsn_{n}: 125ms
 """,
+    "timer": """
+timers:
+  t_{n}:
+    start_value: 0
+    end_value: 40
+    tick_interval: 250ms
+    start_running: false
+    control_events:
+      - event: tstart_{n}
+        action: start
+      - event: tstop_{n}
+        action: stop
+      - event: tpause_{n}
+        action: pause
+        value: 2
+      - event: tpause0_{n}
+        action: pause
+        value: 0
+      - event: treset_{n}
+        action: reset
+      - event: tadd_{n}
+        action: add
+        value: 3
+""",
+    "timerrun": """
+timers:
+  t_{n}:
+    start_value: 0
+    end_value: 40
+    tick_interval: 250ms
+    start_running: true
+    control_events:
+      - event: tstart_{n}
+        action: start
+      - event: tstop_{n}
+        action: stop
+      - event: tpause_{n}
+        action: pause
+        value: 2
+      - event: tpause0_{n}
+        action: pause
+        value: 0
+      - event: treset_{n}
+        action: reset
+      - event: tadd_{n}
+        action: add
+        value: 3
+""",
+    "gametimer": """
+timers:
+  t_{n}:
+    start_value: 0
+    end_value: 40
+    tick_interval: 250ms
+    start_running: false
+    control_events:
+      - event: tstart_{n}
+        action: start
+      - event: tstop_{n}
+        action: stop
+      - event: tpause_{n}
+        action: pause
+        value: 2
+      - event: tpause0_{n}
+        action: pause
+        value: 0
+      - event: treset_{n}
+        action: reset
+      - event: tadd_{n}
+        action: add
+        value: 3
+sequence_shots:
+  ss_{n}:
+    event_sequence: e1_{n}, e2_{n}
+    sequence_timeout: 1s
+shots:
+  sh_{n}:
+    switch: s_shot
+    delay_switch:
+      s_c07: 1s
+ball_saves:
+  bs_{n}:
+    active_time: 2s
+    hurry_up_time: 500ms
+    grace_period: 500ms
+    enable_events: bsen_{n}
+""",
     "gamey": """
 shots:
   sh_{n}:
@@ -186,8 +273,16 @@ POOL = [
     # mode devices whose control events carry a delay (dict form): the pending call must die with the mode
     ("m1", 200, False, False, "dly"), ("m2", 300, False, True, "dly"), ("m3", 100, False, False, "dly"),
     ("m1", 250, True, False, "gamedly"), ("m2", 150, True, False, "gamedly"),
+    # mode devices with their OWN delay manager / periodic task (timers incl. a timed pause, sequence shot timeout,
+    # shot delay switch, ball save timers): everything they scheduled must die with the mode
+    ("m1", 200, False, False, "timer"), ("m2", 300, False, False, "timerrun"), ("m3", 100, False, True, "timer"),
+    ("m1", 150, True, False, "gametimer"), ("m2", 250, True, False, "gametimer"), ("m3", 200, True, False, "timerrun"),
 ]
 DELAYED_CTL = {"dly": ["arm_", "dis_", "rst_"], "gamedly": ["arm_", "rst_", "dis_", "rsn_"]}
+TIMER_EVS = ["tstart_", "tstop_", "tpause_", "tpause0_", "treset_", "tadd_"]
+OWN_TIMERS = {"timer": TIMER_EVS, "timerrun": TIMER_EVS, "gametimer": TIMER_EVS + ["e1_", "e2_", "bsen_"]}
+DEV_EVENT_PREFIXES = ("timer_", "logicblock_", "sequence_shot_", "ball_save_", "shot_", "sh_", "ss_", "c_", "a_")
+DEV_EVENT_RE = re.compile(r"(?:^|_)(?:t|c|a|sh|ss|bs)_(m\d)(?:_|$)")
 
 
 def mode_yaml(name, prio, game_mode, wait, flavour):
@@ -246,8 +341,23 @@ def _install():
             m = EV_RE.match(event)
             if m and m.group(1) in r.names:
                 r.posted(m.group(1), m.group(2))
+            elif m is None:
+                d = DEV_EVENT_RE.search(event)
+                if d and d.group(1) in r.names and (event.startswith(DEV_EVENT_PREFIXES)):
+                    r.device_event(d.group(1), event)
         return o_post(self, event, ev_type, callback, **kwargs)
     EM._post = post
+    from mpf.core import clock as clkmod
+    CB = clkmod.ClockBase
+    o_si = CB.schedule_interval
+
+    def schedule_interval(self, callback, timeout):
+        t = o_si(self, callback, timeout)
+        r = Rec.cur
+        if r is not None:
+            r.periodic.append((t, cbname(callback)))
+        return t
+    CB.schedule_interval = schedule_interval
     from mpf.core import mode_controller as mcmod
     MC = mcmod.ModeController
     if hasattr(MC, "_stop_mode_started_at_turn_end"):
@@ -380,6 +490,9 @@ class Real:
         self.snaps = {}
         self.user = {}        # uid -> (kind, mode)
         self.ctl = {}         # (id(delay manager), delay name) -> uid of a delayed control-event call
+        self.dev_events = 0
+        self.periodic = []    # (PeriodicTask, callback name) registered through clock.schedule_interval since the case began
+        self.dev_event_after_stop = None
         self.fired = []
         self.hook_runs = {}
         self.restarted = None
@@ -427,6 +540,12 @@ class Real:
         if act != exp and not self.violations:
             self.violations.append(("active-list", {"where": where, "active_modes": act, "expected": exp}))
 
+    def device_event(self, m, event):
+        """an event posted by a device of mode m (timer_<name>_*, logicblock_<name>_*, <name>_hit ...)"""
+        self.dev_events += 1
+        if not self.alive(m) and self.dev_event_after_stop is None:
+            self.dev_event_after_stop = (m, event)
+
     def turn_handlers(self):
         out = {}
         for n in self.names:
@@ -461,8 +580,12 @@ class Real:
                     out.append((i, cbname(ent[1])))
         return out
 
+    def live_periodic(self):
+        return sorted(n for t, n in self.periodic if not t._canceled)
+
     def dumps(self):
-        return {"bus": dump_bus(self.machine), "sw": dump_sw(self.machine), "dl": dump_dl(self.machine)}
+        return {"bus": dump_bus(self.machine), "sw": dump_sw(self.machine), "dl": dump_dl(self.machine),
+                "pt": self.live_periodic()}
 
     # -- user code -------------------------------------------------------------------------------------------------
     def deadline(self, ticks):
@@ -682,19 +805,21 @@ def oracle0(case, real, crash):
             if e[2] != exp:
                 return "active-list", {"where": "quiescent", "active_modes": e[2], "expected": exp}
     # clause 3: nothing left behind
+    if real.dev_event_after_stop:
+        return "device-event-after-stop", {"mode": real.dev_event_after_stop[0], "event": real.dev_event_after_stop[1]}
     for kind, m, u, st in real.fired:
         if st == "idle":
             return "fired-after-stop:" + {"dl": "delay", "h": "handler", "sw": "switch-handler", "ctl": "control-event"}[kind], \
                 {"mode": m, "what": kind, "id": u}
     for e in L:
         if e[0] == "q" and not any(st[0] or st[1] or st[2] for st in e[1].values()):
-            for reg in ("bus", "sw", "dl"):
+            for reg in ("bus", "sw", "dl", "pt"):
                 extra, missing = msub(e[3][reg], real.base[reg])
                 if reg == "bus" and any(x[2] == TURN_END_CB for x in extra):
                     return "turn-end-handler-left-behind", {"left_behind": [x for x in extra if x[2] == TURN_END_CB][:4]}
                 if extra or missing:
                     kinds = sorted({x[2].split(".")[0] if reg == "bus" else str(x[-1]).split(".")[0] for x in extra + missing})
-                    return "registry-leak:" + {"bus": "event-handlers", "sw": "switch-handlers", "dl": "delays"}[reg], \
+                    return "registry-leak:" + {"bus": "event-handlers", "sw": "switch-handlers", "dl": "delays", "pt": "periodic-tasks"}[reg], \
                         {"left_behind": extra[:6], "missing": missing[:6], "kinds": kinds}
             if not case["game"] and e is last_q:      # a cancelled periodic task leaves the heap at its next wake-up
                 extra, missing = msub(e[4], real.base_timers)
@@ -806,6 +931,26 @@ def gen_case(r):
         for _ in range(r.choice([0, 1, 2])):
             m, pre = r.choice(ctl)
             ops.insert(r.randint(0, len(ops)), ["ev", pre + m])
+    tms = [m for m in names if chosen[m][3] in OWN_TIMERS]
+    for _ in range(r.choice([1, 2, 3]) if tms else 0):
+        # start, (timed) pause / other control events, stop the mode shortly afterwards - e.g. inside the 2 s pause
+        m = r.choice(tms)
+        evs = OWN_TIMERS[chosen[m][3]]
+        burst = [["ev", "start_" + m], ["adv", r.choice([1, 2])], ["ev", "tstart_" + m], ["adv", r.choice([1, 3, 6])]]
+        x = r.random()
+        if x < 0.5:
+            burst.append(["ev", "tpause_" + m])
+        elif x < 0.8:
+            burst += [["ev", r.choice(evs) + m] for _ in range(r.choice([1, 2]))]
+        if chosen[m][3] == "gametimer" and r.random() < 0.5:
+            burst += [["ev", r.choice(["e1_", "bsen_"]) + m]] + ([["hitsw"]] if r.random() < 0.5 else [])
+        gap = r.choice([0, 1, 2, 4])
+        if gap:
+            burst.append(["adv", gap])
+        burst.append(r.choice([["stop", m], ["ev", "stop_" + m]] + ([["ballend"]] if chosen[m][1] else [])))
+        burst.append(["adv", r.choice([1, 4, 24])])
+        at = r.randint(0, len(ops))
+        ops[at:at] = burst
     for o in ops:
         if o[0] in ("addh", "addsw"):
             del o[2:]
